@@ -1,5 +1,5 @@
 """C07 -- fit discards everything learned before (F-REFIT at arbitrary points of arbitrary histories)."""
-from .. import gen
+from .. import gen, kernel
 from ..twin import obs_ops, observe_same, same_params
 from ..world import Session, is_contextual, sync_streams, tol_for
 
@@ -61,13 +61,22 @@ def generate(rnd, tier, index=0):
             ops.append({"op": rnd.choice(["predict", "expect"]), "Q": Q})
     Q = gen.gen_Q(rnd, rnd.randint(1, 4), d, regime, stored) if ctxl else None
     ops.append({"op": "expect", "Q": Q})
-    return {"cfg": cfg, "regime": regime, "ops": ops}
+    jobs = None
+    from ..world import lp_class, np_class
+    if rnd.random() < 0.3 and not (np_class(cfg) == "TreeBandit" and lp_class(cfg) in ("ThompsonSampling", "EpsilonGreedy>0")):
+        # the refitted bandit trains with n_jobs > 1 under seeded worker schedules, the fresh one with n_jobs = 1
+        # (TreeBandit + ThompsonSampling / EpsilonGreedy(eps>0) excluded: known finding KF-C05-treebandit-shared-rng)
+        jobs = {"n_jobs": rnd.choice([2, 3, -1]), "backend": rnd.choice([None, "threading"])}
+        for o in ops:
+            if o["op"] in ("fit", "partial_fit"):
+                o["sched"] = kernel.Sched.draw(rnd)
+    return {"cfg": cfg, "regime": regime, "ops": ops, "jobs": jobs}
 
 
 def execute(case, ctx):
     cfg = case["cfg"]
     rtol = tol_for(cfg, case["regime"])
-    P = Session(cfg)
+    P = Session(cfg, **(case.get("jobs") or {}))
     F = None              # shadow: the fresh bandit created at the last refit
     since_fit = set()
     for step, op in enumerate(case["ops"]):
@@ -86,7 +95,7 @@ def execute(case, ctx):
             since_fit = set()
             F = Session(cfg, arms=list(P.mab.arms))
             F.mab._rng.rng.bit_generator.state = P.mab._rng.rng.bit_generator.state
-            rp = P.apply(op)
+            rp = P.apply(op, sched=op.get("sched"))
             rf = F.apply(op)
             ctx.fired("ops.train")
             if rp != rf:
@@ -110,7 +119,7 @@ def execute(case, ctx):
         if kind == "warm_start":
             since_fit.add("warm_start")
         if F is None:
-            r = P.apply(op)
+            r = P.apply(op, sched=op.get("sched"))
             if kind in ("fit", "partial_fit") and r[0] == "ok":
                 ctx.fired("ops.train")
             continue
@@ -120,7 +129,7 @@ def execute(case, ctx):
                 ctx.violate("observation-%s-differ" % c[0], step, {"diff": c[1], "op": kind})
                 return
         else:
-            rp = P.apply(op)
+            rp = P.apply(op, sched=op.get("sched"))
             rf = F.apply(op)
             if kind in ("fit", "partial_fit") and rp[0] == "ok":
                 ctx.fired("ops.train")
